@@ -41,6 +41,9 @@ def main():
                                           adjs=[500, 1000, 2000, 3000], rescale_adj=True, nmarkets=[1, 2], min_upd=7, max_upd=12))
             for _ in range(n // 2)]
     simcheck.run_family(ck, "moc_lay_liability_rescaled_factors_and_shared_selections", scs5, propcheck.c09, "C09", "removal-moc2")
+    # paper trading: a runner removed while an order on it is on its way to the simulated exchange: voided in full, takes nothing
+    import papercheck
+    papercheck.run_family(ck, rng, 36 if thorough else 12, "paper_trading_runner_removed_while_the_order_is_on_its_way", ("C09",))
     return ck.finish("scenarios on the real FlumineSimulation with runner removals (factor None/0/2.49/2.5/2.51/10/33/99, before and after in-play, 1-2 removals per market) while orders rest, are partly filled, partly cancelled, lapsed, pending or have a request in flight; 1-3 markets per run sharing selection ids, sequential and event-grouped; WIN/PLACE/OTHER_PLACE/EACH_WAY; compared with the Coq model and checked by an independent re-computation of void/reduction")
 
 
